@@ -191,8 +191,10 @@ def run(ctx):
     r = ctx.rng
     i = 0
     reps = 2 if ctx.quick else 10
+    if ctx.shard[0] == 0:
+        _all_status_codes(ctx, r)
     for kind in C.KINDS8:
-        for cfg in C.all_cfgs(r, segctrl=(kind == "file_data")):
+        for cfg in C.all_cfgs(r, segctrl=True):
             i += 1
             if not ctx.mine(i):
                 continue
@@ -218,6 +220,23 @@ def run(ctx):
         k_holder_before_factory(ctx, ctx.seed * 1_000_003 + ctx.shard[0] * 100_003 + j)
     if ctx.shard[0] == 0:
         k_empty_holder(ctx)
+
+
+def _all_status_codes(ctx, r):
+    X = C.lib()
+    from spverif.ref import enums as _enums
+    std = sorted(v for v in _enums.TABLES["spacepackets.cfdp.tlv.defs.FilestoreResponseStatusCode"].values() if v >= 0)     # table 5-18 of the standard, not the library's own list
+    for st in std:
+        a = st >> 4
+        for _ in (0,):
+            cfg = C.rand_cfg(r)
+            two = a in R.TWO_NAME_ACTIONS
+            p = {"cond": 4, "delivery": 1, "status": 1, "fault_id": None,
+                 "responses": [{"action": a, "status": st, "first": "f1", "second": "f2" if two else "", "msg": "aa"}]}
+            ctx.table("filestore_status_through_factory", f"{a}/{st & 0xF}")
+            k_factory(ctx, "finished", cfg, p)
+            opt = [[0, R.fs_request_value(a, b"n1", b"n2" if two else b"").hex(), "generic"]]
+            k_factory(ctx, "metadata", cfg, {"closure": 0, "cksum_type": 0, "size": 3, "src_name": "a", "dst_name": "b", "options": opt})
 
 
 def conclude(ctx):
